@@ -17,7 +17,6 @@ EXTENDS FS, Ignore, Json
 CONSTANTS
   NameChars,            \* name token -> character sequence (for rule matching)
   NameOrder,            \* sequence of all name tokens in byte order (filepath.Walk order)
-  RuleFiles,            \* content id -> sequence of rule-file lines (character sequences)
   DEV_IgnoreRelToSrc,   \* in a dereferenced directory rules see the path relative to the external dir (cand. 9)
   DEV_NestedDstFsPath,  \* a dereferenced directory inside a dereferenced directory is named by its filesystem path (cand. 19)
   DEV_DerefSpecial      \* a link to a fifo is dereferenced like a file: os.Open blocks (cand. 11)
@@ -34,8 +33,6 @@ Kids(f, p) == SortNames(KidNames(f, p))
 \* time.Round(time.Second) on the abstract time encoding: t < 1000 is whole seconds,
 \* t >= 1000 encodes sec*10 + tenths as 1000 + sec*10 + tenths
 RoundT(t) == IF t < 1000 THEN t ELSE LET x == t - 1000 IN (x \div 10) + (IF x % 10 >= 5 THEN 1 ELSE 0)
-
-SizeOf(c) == 4 * c      \* gamma: content id c is rendered as 4*c bytes (rule files: see RuleSize)
 
 PChars(rel) == PathChars([i \in DOMAIN rel |-> NameChars[rel[i]]])
 
@@ -75,7 +72,7 @@ WalkNode(ctx, fr, lex, depth, isRoot) ==
       x1 == IF ctx.ign THEN Excludes(ctx.rs, s) ELSE [ex |-> FALSE, dom |-> FALSE]
       x2 == IF ctx.ign /\ node.k = "d" THEN Excludes(ctx.rs, s \o <<"/">>) ELSE [ex |-> FALSE, dom |-> FALSE]
       skipSelf == relSrc = <<>> \/ x1.ex \/ x2.ex \/ arel = <<>>
-      prune == relSrc # <<>> /\ ~x1.ex /\ x2.ex /\ x2.dom
+      prune == relSrc # <<>> /\ (DEV_IgnoreRelToSrc \/ arel # <<>>) /\ ~x1.ex /\ x2.ex /\ x2.dom
       here ==
         IF skipSelf THEN [out |-> <<>>, st |-> "ok", walk |-> ~prune]
         ELSE IF node.k = "d" THEN [out |-> <<E("d", Append(arel, ""), node.m, RoundT(node.t), 0, <<>>)>>, st |-> "ok", walk |-> TRUE]
@@ -110,19 +107,20 @@ WalkKids(ctx, fr, lex, depth, ks, acc) ==
 
 \* parseIgnoreFile(src): src as spelled (resolved by the kernel from cwd)
 IgnoreFileName == ".terraformignore"
-LoadRules(f, cwd, srcToks) ==
+RuleFileC == 50          \* content id of a rule file; its text travels with the case as "lines"
+LoadRules(f, cwd, srcToks, lines) ==
   LET r == Res(f, IF IsAbsT(srcToks) THEN Root ELSE cwd, Append(srcToks, IgnoreFileName), FUEL, TRUE) IN
-  IF r.st = "ok" /\ f[r.p].k = "f" /\ f[r.p].c \in DOMAIN RuleFiles
-  THEN ParseLines(RuleFiles[f[r.p].c])
+  IF r.st = "ok" /\ f[r.p].k = "f" /\ f[r.p].c = RuleFileC
+  THEN ParseLines(lines)
   ELSE [st |-> "ok", rules |-> DefaultVals, flags |-> DefaultFlags]
 
 \* opts: [ign, deref, allow]
-PackRun(f, cwd, spelling, opts) ==
+PackRun(f, cwd, spelling, opts, lines) ==
   LET l0 == Res(f, IF IsAbsT(spelling) THEN Root ELSE cwd, spelling, FUEL, FALSE) IN
   IF l0.st # "ok" THEN [st |-> "err", out |-> <<>>]
   ELSE
   LET srcToks == IF f[l0.p].k = "l" THEN f[l0.p].tgt ELSE spelling        \* one Readlink, used as spelled
-      pr == IF opts.ign THEN LoadRules(f, cwd, srcToks) ELSE [st |-> "ok", rules |-> <<>>, flags |-> <<>>]
+      pr == IF opts.ign THEN LoadRules(f, cwd, srcToks, lines) ELSE [st |-> "ok", rules |-> <<>>, flags |-> <<>>]
   IN IF pr.st = "panic" THEN [st |-> "panic", out |-> <<>>]
   ELSE
   LET src == AbsP(cwd, srcToks)
@@ -158,6 +156,6 @@ C05Bad(f, src, opts, out) ==
 OutLinks(f, src, opts) ==
   { p \in DOMAIN f : StrictlyUnder(p, src) /\ f[p].k = "l" /\ ~ValidLinkP(src, opts.allow, p, f[p].tgt) }
 
-\* C03: which non-directory paths must / must not appear (own-path semantics)
-UserRulesOf(f, src) == <<>>       \* structured user rules are supplied by the MC module (SpecRules)
+\* C19: the call returns
+C19Bad(st) == IF st \in {"panic", "diverge", "block", "hang", "crash"} THEN {st} ELSE {}
 =============================================================================
